@@ -278,6 +278,14 @@ pub struct PreparedCommitment<E: Pairing> {
     pub(crate) shifted_comm: Option<kzg10::Commitment<E>>,
 }
 
+#[cfg(feature = "verif-hooks")]
+impl<E: Pairing> PreparedCommitment<E> {
+    /// Verification hook: the prepared table and the shifted commitment.
+    pub fn verif_parts(&self) -> (&kzg10::PreparedCommitment<E>, &Option<kzg10::Commitment<E>>) {
+        (&self.prepared_comm, &self.shifted_comm)
+    }
+}
+
 impl<E: Pairing> PCPreparedCommitment<Commitment<E>> for PreparedCommitment<E> {
     /// Prepare commitment to a polynomial that optionally enforces a degree bound.
     fn prepare(comm: &Commitment<E>) -> Self {
